@@ -14,7 +14,7 @@ RULE = ('bpch contents with 1-3 time blocks x 1-3 tracers in 1-3 categories, nx,
         'offsets, tracerinfo.dat/diaginfo.dat generated as text (category offsets 0/100/1000/2000, entries present or missing); three directions: '
         'rw = reference-encoded file -> bpch1 (noscale or scaled) -> ncf2bpch; wr = hand-built bpch-convention file -> ncf2bpch -> bpch1; '
         'b2 = bpch2 vs bpch1. Data: arbitrary finite binary32 patterns (noscale) or small dyadic values whose product with SCALE is exact (scaled). '
-        'Malformed stream (F only): byte truncations, trailing words, edits of record markers / tracer ids / categories / skip / dims / title markers. '
+        'Malformed stream: byte truncations (random, block/time-block boundaries +-, one header further; S = every-prefix alternatives), trailing words, edits of record markers / tracer ids / categories / skip / dims / title markers. '
         'Non-trivial = library opened the file and presented >= 1 variable.')
 TRUSTED = ['numpy structured dtype over a memmap = fixed-size chunking (modelled by chunks/firstn/skipn)',
            'character fields (left justified, blank or NUL padded, no leading blank) and float64 time stamps are moved, never computed on',
@@ -23,16 +23,18 @@ TRUSTED = ['numpy structured dtype over a memmap = fixed-size chunking (modelled
            'variable keys "<category>_<name>" are mapped back to (category, name index) by the harness; names are alphabetic']
 ASSUMPTIONS = ['table keys unique (tracer numbers in tracerinfo.dat, categories in diaginfo.dat); no two tracers of a file share offset+id',
                'one model grid per file and one time stamp per time block (what GEOS-Chem writes)']
-LEVEL_TEXT = ('Theorems (Props/C18.v, all closed under the global context) over Model/Bpch.v, which describes the repaired header walk and warning '
-              '(fixes/C18-one-tracer-two-times.patch, fixes/C18-warn-format.patch): the record-walking spec decoder inverts the spec encoder for every content '
-              '(C18_dec_enc); for EVERY bpch-convention content (any number of time blocks, tracers, layers, nested offsets) and tables with unique keys the model of '
-              'bpch1 (header walk, time_type strides, itemcount, assertions; field positions from the translated dtype literals) presents exactly the content '
-              '(C18_reader_presents_content), ncf2bpch reproduces the words (C18_read_write_bytes; the writer alone: C18_writer_conforms), writing any '
-              'bpch-convention view and reading it back returns it (C18_write_read); the dict-based name/scale/unit lookup is the offset(category)+id association '
-              '(C18_scale_lookup, C18_lookup_is_association); reader/writer layouts and pads agree (C18_layouts, re-checked against the source on every run). No '
-              '_partial/_refuted theorem remains. Tie T: dtype literals, pads and skip regenerated from _bpch.py into coq/Gen/Bpch.v; tie H: reference encoder == Coq enc, '
-              'bpch1 == impl_open (incl. every error outcome on a malformed stream), ncf2bpch == impl_write on every case; corpus: the two formerly failing shapes. '
-              'Clause 4 (bpch2) has no theorem: bpch2 cannot run on numpy 2 (known finding, region 1) and is not modelled.')
+LEVEL_TEXT = ('Theorems (Props/C18.v, all closed under the global context) over Model/Bpch.v (the repaired header walk and warning): the record-walking spec '
+              'decoder inverts the spec encoder for every content (C18_dec_enc); for EVERY bpch-convention content (any number of time blocks, tracers, layers, nested '
+              'offsets) and tables with unique keys the model of bpch1 (header walk, time_type strides, itemcount, assertions; field positions from the translated dtype '
+              'literals) presents exactly the content (C18_reader_presents_content), ncf2bpch reproduces the words (C18_read_write_bytes; the writer alone: '
+              'C18_writer_conforms), writing any bpch-convention view and reading it back returns it (C18_write_read); the dict-based name/scale/unit lookup is the '
+              'offset(category)+id association (C18_scale_lookup, C18_lookup_is_association); reader/writer layouts and pads agree (C18_layouts, re-checked against the '
+              'source on every run). EVERY BYTE PREFIX (C18_every_prefix, C14 for bpch): the reader either raises, or presents exactly the first k whole time blocks, or - '
+              'cut exactly at a tracer boundary inside the first time block - one time block with the first j tracers; the last alternative is real '
+              '(C18_prefix_whole_time_blocks_only_refuted, vm_compute witness that replays on the library: a bpch file has no tracer count). Tie T: dtype literals, pads '
+              'and skip regenerated from _bpch.py into coq/Gen/Bpch.v; tie H: reference encoder == Coq enc, bpch1 == impl_open (incl. every error outcome on the malformed '
+              'stream and the every-prefix alternatives on the cut stream, S), ncf2bpch == impl_write on every case. Clause 4 (bpch2) has no theorem: bpch2 cannot run on '
+              'numpy 2 (known finding, region 1) and is not modelled.')
 LEVEL_NOTE = ('Trusted: Coq kernel + vm_compute, py2coq and the driver normalisation, the harness (observation of the library object, string pools). Scaled WRITE '
               '(vals / scale) is checked on exact values by correspondence only; inexact binary32 scaling is decided by a Python oracle.')
 TECHNIQUE = 'Coq proof (codec round trip, reader/writer model refinement over Fortran record framing) + translation from source + differential correspondence'
@@ -215,7 +217,15 @@ def gen_mut(rng, case):
     roles, _ = word_roles(case)
     r = rng.random()
     if r < 0.35:
-        return dict(cut=rng.choice([rng.randint(0, 4 * ws_len), 4 * rng.randint(0, ws_len), rng.randint(130, 360)]))
+        # block / time-block boundaries (and just around them, and 220 bytes = one header further) are the interesting cuts
+        ends, off = [], 34
+        for t in case['times']:
+            for tr in case['tracers']:
+                off += 57 + tr['dim'][0] * tr['dim'][1] * tr['dim'][2]
+                ends.append(4 * off)
+        bnd = rng.choice(ends) + rng.choice([0, 0, 0, -4, 4, 1, 216, 220, 224, 228, 232])
+        return dict(cut=rng.choice([rng.randint(0, 4 * ws_len), 4 * rng.randint(0, ws_len), rng.randint(130, 360),
+                                    max(0, min(4 * ws_len, bnd)), max(0, min(4 * ws_len, bnd))]))
     if r < 0.45:
         return dict(append=[L.finite_word(rng) for _ in range(rng.choice([1, 2, 55, 60]))])
     role, k, i = rng.choice(roles)
